@@ -35,6 +35,9 @@ CLAIMED = {
  "C17": ("exploration", "property-based testing against an independent recomputation from the tool's own per-row ledger",
          "Total-costs and yearly-max tables are recomputed from the TxDeltas of the same run (default affiliate: day maximum, else closing cost of the most recent earlier day, else opening cost) and compared cell by cell; ties for a yearly maximum accept any tied day.",
          "Only error-free inputs (as the property states).", "DESIGN.md section 4 C17"),
+ "C15": ("exploration", "metamorphic property-based testing: history vs history with an inserted split and restated later rows",
+         "Window scenarios built so that the restated history is exactly representable (quantities multiples of 3, later per-share amounts multiples of a) are run with and without an a-for-b split (16 ratios: forward, reverse, fractional; one row for all or one per affiliate; any position relative to the loss sale's window); gains, superficial losses, total ACB and adjustments must agree and share balances scale by a/b.",
+         "Base histories contain no other split. Differences explained by the recorded rounding-residue findings (R1b/R5) are excluded by their classifiers.", "DESIGN.md section 4 C15"),
 }
 NOT_YET = "check not built yet in this round (planned: see DESIGN.md section 4)"
 
